@@ -103,6 +103,16 @@ def send (cfg : ClientConfig) (render : Str → Str) (req : Request) (headers : 
     | some h =>
       ⟨ev ++ [.post cfg.location ⟨render id, encodingOf cfg⟩ h, .parse response cfg.output], true⟩
 
+/-! ## DefaultTransport.handle_response -/
+
+/-- `requests.Response.raise_for_status` raises `HTTPError` (trusted, documented behaviour of requests) -/
+def raiseForStatus (status : Nat) : Bool := 400 ≤ status && status < 600
+
+/-- `DefaultTransport.handle_response`: `true` = the response content is returned
+(and goes to the parser), `false` = `HTTPError` -/
+def handleResponse (status : Nat) : Bool :=
+  if status == 200 || status == 500 then true else !raiseForStatus status
+
 /-! ## detect_lazy_namespace -/
 
 /-- `ProcessAttributeTypes.detect_lazy_namespace(source, target, attr)`: the new `attr.namespace` -/
